@@ -37,9 +37,9 @@ CntEs == { CE("IBC", "channel-0", "CCTP", "0", 3), CE("IBC", "channel-0", "CCTP"
 
 RECURSIVE DigitsOfG(_)
 DigitsOfG(n) == IF n < 10 THEN <<ToString(n)>> ELSE Append(DigitsOfG(n \div 10), ToString(n % 10))
-\* more paused pairs than one default page (100): a hundred fresh CCTP domains, then Hyperlane 1 and 2
-\* (last in key order)
-ManyPairs == [i \in 1..102 |-> IF i <= 100 THEN CC("CCTP", DigitsOfG(1000 + i)) ELSE CC("HYP", <<ToString(i - 100)>>)]
+\* more paused pairs than one default page (100) - in total AND under one protocol: 101 fresh CCTP
+\* domains (1001..1101), then Hyperlane 1 and 2 (last in key order)
+ManyPairs == [i \in 1..103 |-> IF i <= 101 THEN CC("CCTP", DigitsOfG(1000 + i)) ELSE CC("HYP", <<ToString(i - 101)>>)]
 Docs == { [DefG EXCEPT !.pcc = ManyPairs] } \cup { [DefG EXCEPT !.pp = x] : x \in PPs } \cup { [DefG EXCEPT !.pcc = x] : x \in PCCs } \cup { [DefG EXCEPT !.pa = x] : x \in PAs }
         \cup { [DefG EXCEPT !.amts = x] : x \in Lists2(AmtEs) } \cup { [DefG EXCEPT !.cnts = x] : x \in Lists2(CntEs) }
         \cup { [DefG EXCEPT !.params = v] : v \in {0, 1, 64, -1} }
